@@ -393,16 +393,8 @@ class OrderingList(List[_T]):
         entity: Union[_T, Iterable[_T]],
     ) -> None:
         if isinstance(index, slice):
-            step = index.step or 1
-            start = index.start or 0
-            if start < 0:
-                start += len(self)
-            stop = index.stop or len(self)
-            if stop < 0:
-                stop += len(self)
-            entities = list(entity)  # type: ignore[arg-type]
-            for i in range(start, stop, step):
-                self.__setitem__(i, entities[i])
+            super().__setitem__(index, entity)  # type: ignore[assignment]
+            self._reorder()
         else:
             self._order_entity(int(index), entity, True)  # type: ignore[arg-type] # noqa: E501
             super().__setitem__(index, entity)  # type: ignore[assignment]
